@@ -32,7 +32,7 @@ ASSUMPTIONS = ["the console answers as the vendor documents prescribe (SimConsol
 REQUIRED_OBS = ["second_init_judged", "names_listed_out_of_order", "last_step_gated", "init_true_judged", "init_false_judged", "extras_inserted", "zero_zone_at5",
                 "zero_zone_at4",
                 "bitmap_partitions", "old_format_multi_ac", "silence_cases", "late_connect_cases",
-                "second_init_after_a_failed_one"]
+                "second_init_after_a_failed_one", "getters_read_during_init"]
 BUDGET = {"quick": 100, "thorough": 1500}
 
 EXTRAS = ["unsol_ac_status", "unsol_zone_status", "dup_version", "dup_names", "unknown_type",
@@ -265,6 +265,16 @@ def run_case(case):
         if case["lat"]:
             net.script.append(("accept", case["lat"]))
         w = AW.ModelWorld(gen, loop, net, log, inst, knobs)
+        if case["seed"] % 2 == 0:
+            # another task of the application looks at the object while init() is running
+            # (every public attribute, each time a request reaches the console)
+            handle0 = w.console._handle
+
+            def handle(conn, f, cmd):
+                H.snapshot(w.at)
+                obs["getters_read_during_init"] = obs.get("getters_read_during_init", 0) + 1
+                return handle0(conn, f, cmd)
+            w.console._handle = handle
         t0 = loop.time()
         r = await w.init()
         out["ret_seq"] = log.mark()
